@@ -1149,6 +1149,29 @@ def run(index, rep, tier):
                               "%s calls %s, which raises %s (a plain Exception used to signal that the block ended), outside any handler for it: a matrix whose `;` comes before a row is complete (`b AC;`), or a repeated row label, makes that internal signal escape to the caller instead of a data-parse error" % (f.qualname, cals[0].qualname, k.name))
         rep.floor("R20.11", "calls of routines raising an internal control exception", 2, nint)
 
+    # ---- R20.12 the error message itself can be composed
+    with rep.section("R20.12"):
+        rep.rule("R20.12", "the error message itself can be composed: in the readers a `%d` conversion of a %-format is given a number, never a matrix row / sequence object or a label - otherwise reporting the parse error dies with a TypeError, which is what the caller sees")
+        import re as _re
+        nfmt = 0
+        for f in sm.fns:
+            for b in ast.walk(f.node):
+                if not (isinstance(b, ast.BinOp) and isinstance(b.op, ast.Mod) and isinstance(b.left, ast.Constant) and isinstance(b.left.value, str)):
+                    continue
+                specs = _re.findall(r"%(?:\([^)]*\))?[#0\- +]*\d*(?:\.\d+)?([diouxXeEfFgGcrsa%])", b.left.value)
+                specs = [x for x in specs if x != "%"]
+                args = list(b.right.elts) if isinstance(b.right, ast.Tuple) else [b.right]
+                if len(specs) != len(args):
+                    continue
+                for sp, a in zip(specs, args):
+                    if sp not in "diouxXeEfFgG":
+                        continue
+                    nfmt += 1
+                    non_numeric = (isinstance(a, ast.Subscript) and any(w in norm(a.value) for w in ("matrix", "_map", "sequence"))) or (isinstance(a, ast.Attribute) and a.attr in ("label", "symbol")) or isinstance(a, (ast.JoinedStr, ast.List, ast.Dict, ast.Set)) or (isinstance(a, ast.Constant) and isinstance(a.value, str))
+                    rep.check(not non_numeric, "R20.12", f.qualname, "%%%s given a non-number: %s" % (sp, norm(a)[:40]), fn_where(f, b), "%s: %%%s <- %s" % (f.name, sp, norm(a)[:40]),
+                              "%s formats `%s` with %%%s: that is a sequence / label object, not a number, so composing the message raises `TypeError: %%d format: a real number is required` - a PHYLIP file with a repeated row label is answered with that internal TypeError instead of the data-parse error being written" % (f.qualname, norm(a)[:50], sp))
+        rep.floor("R20.12", "numeric conversions in the readers' messages", 5, nfmt)
+
 
 def _branch_calls_raiser(cfg, n):
     for lab, t in n.succ:
